@@ -545,6 +545,11 @@ class Executor(object):
         v = self.ev(e.operand, path)
         if isinstance(e.op, ast.Not):
             return SV('bool', z3.Not(self.truth(v, path)))
+        if isinstance(e.op, ast.Invert):
+            for x_ in self.E.ext:
+                r = x_.method(self.E, self, v, '__invert__', [], {}, path, e)
+                if r is not None:
+                    return r
         raise Unsupported('unary operator')
 
     def ev_BinOp(self, e, path):
@@ -553,6 +558,9 @@ class Executor(object):
         h = path.heap
         if isinstance(e.op, (ast.Add, ast.Mod)) and (a.ty == 'str' or b.ty == 'str'):
             return SV('str')
+        if a.ty == 'bool' and b.ty == 'bool' and isinstance(e.op, (ast.BitXor, ast.BitAnd, ast.BitOr)):
+            f = {ast.BitXor: z3.Xor, ast.BitAnd: z3.And, ast.BitOr: z3.Or}[type(e.op)]
+            return SV('bool', f(a.t, b.t))
         if a.ty == 'int' and b.ty == 'int':
             if isinstance(e.op, ast.Add):
                 return SV('int', a.t + b.t)
